@@ -22,21 +22,20 @@
 -/
 namespace Spec.Nilsimsa
 
-/-- the collision scan; `fuel` bounds the number of loop iterations -/
-def scan (tran : List Nat) : Nat → Nat → Nat → Nat
+/-- the collision scan `for (k=…;k<i;k++) if (j==tran[k]) {j=(j+1)&255; k=0;}`: `todo` = tran[k..i);
+    after a hit the scan resumes at k = 1; `fuel` bounds the number of loop iterations -/
+def scan (tran : List Nat) : Nat → Nat → List Nat → Nat
   | 0, j, _ => j
-  | fuel + 1, j, k =>
-    if k < tran.length then
-      if tran.getD k 0 = j then scan tran fuel ((j + 1) &&& 255) 1 else scan tran fuel j (k + 1)
-    else j
+  | _ + 1, j, [] => j
+  | fuel + 1, j, t :: todo => if j = t then scan tran fuel ((j + 1) % 256) tran.tail else scan tran fuel j todo
 
 def filltranAux (mult : Nat) : Nat → Nat → List Nat → List Nat
   | 0, _, tran => tran
   | n + 1, j, tran =>
-    let j := (j * mult + 1) &&& 255
+    let j := (j * mult + 1) % 256
     let j := j + j
     let j := if j > 255 then j - 255 else j
-    let j := scan tran (256 * 257) j 0
+    let j := scan tran (256 * 257) j tran
     filltranAux mult n j (tran ++ [j])
 
 def filltran (mult : Nat) : List Nat := filltranAux mult 256 0 []
@@ -44,25 +43,25 @@ def filltran (mult : Nat) : List Nat := filltranAux mult 256 0 []
 def tran3 (tran : List Nat) (a b c n : Nat) : Nat :=
   ((tran.getD ((a + n) % 256) 0 ^^^ (tran.getD b 0 * (n + n + 1))) + tran.getD (c ^^^ tran.getD n 0) 0) % 256
 
-/-- the trigram hashes contributed by position i -/
-def eventsAt (tran : List Nat) (d : List Nat) (i : Nat) : List Nat :=
+/-- the trigram hashes contributed by position i (the byte string is an array only for O(1) access) -/
+def eventsAt (tran : List Nat) (d : Array Nat) (i : Nat) : List Nat :=
   let c (k : Nat) := d.getD (i - k) 0
   (if 2 ≤ i then [tran3 tran (c 0) (c 1) (c 2) 0] else [])
   ++ (if 3 ≤ i then [tran3 tran (c 0) (c 1) (c 3) 1, tran3 tran (c 0) (c 2) (c 3) 2] else [])
   ++ (if 4 ≤ i then [tran3 tran (c 0) (c 1) (c 4) 3, tran3 tran (c 0) (c 2) (c 4) 4, tran3 tran (c 0) (c 3) (c 4) 5,
                      tran3 tran (c 4) (c 1) (c 0) 6, tran3 tran (c 4) (c 3) (c 0) 7] else [])
 
-def events (tran : List Nat) (d : List Nat) : List Nat := (List.range d.length).flatMap (eventsAt tran d)
+def events (tran : List Nat) (d : Array Nat) : List Nat := (List.range d.size).flatMap (eventsAt tran d)
 
 def total (n : Nat) : Nat := if n < 3 then 0 else if n = 3 then 1 else if n = 4 then 4 else 8 * n - 28
 
 /-- bit i of the code -/
-def codeBit (tran : List Nat) (d : List Nat) (i : Nat) : Bool := (events tran d).count i > total d.length / 256
+def codeBit (tran : List Nat) (d : Array Nat) (i : Nat) : Bool := (events tran d).count i > total d.size / 256
 
 /-- the 32-byte digest, most significant code byte first -/
 def nilsimsa (mult : Nat) (d : List Nat) : List Nat :=
   let tran := filltran mult
-  let ev := events tran d
+  let ev := events tran d.toArray
   let thr := total d.length / 256
   (List.range 32).map fun m =>
     ((List.range 8).map fun b => if ev.count (8 * (31 - m) + b) > thr then 2 ^ b else 0).sum
